@@ -158,56 +158,34 @@ theorem addedIdx_pure (g : Globals) (tb : String) : ∀ idxs : List Index, (∀ 
 
 end Table
 
-/-- **C01, a table only the new side has, on the reference engine.**  For a table the new script declares and the old one
-    does not (MySQL reader model, no inline PRIMARY KEY, no foreign key on it): the CREATE TABLE statement followed by
-    the index statements `MigrationIndexUp` prints for it, executed on any schema that does not have the table, are
-    well-formed at every step and add a table equal to the new side's (columns, primary key, indexes), leaving every
-    other table alone. -/
-theorem created_table_spec (g : Globals) (hg : g.dialect = .mysql) (rc : Bool)
-    (old new : List Stmt) (dbO dbN : DB) (ho : old.all Stmt.elemSafe = true) (hn : new.all Stmt.elemSafe = true)
-    (hpo : old.all Stmt.plainOpts = true) (hpn : new.all Stmt.plainOpts = true)
-    (heo : execAll rc [] old = some dbO) (hen : execAll rc [] new = some dbN)
-    (d : Migration) (hd : loadAndDiff g old new = .ok d)
-    (t : String) (tbN : TableSpec) (hfn : dbN.find t = some tbN) (hnew : dbO.has t = false) (hnofk : tbN.fks = []) :
-    ∃ td ∈ d.tables, td.name = t ∧ td.action = .add ∧
-      ∃ cs is, td.migrationColumnUp g = .ok (cs, []) ∧ td.migrationIndexUp g [] = .ok is ∧
-        td.migrationForeignKeyUp [] = [] ∧ (∀ s ∈ cs ++ is, justified dbO dbN s = true) ∧
+/-- **a table as the reader loaded it, printed as a new table, on the reference engine.**  For a table a script declares
+    (MySQL reader model, no inline PRIMARY KEY, no foreign key on it), the record `td` the reader holds for it is
+    marked `add`, and the CREATE TABLE statement followed by the index statements printed for it, executed on any
+    schema that does not have the table, are well-formed at every step and add a table equal to the script's (columns,
+    primary key, indexes), leaving every other table alone; against any schema without the table, each of these
+    statements is justified by a difference. -/
+theorem loaded_table_spec (g : Globals) (hg : g.dialect = .mysql) (rc : Bool)
+    (new : List Stmt) (dbN : DB) (hn : new.all Stmt.elemSafe = true) (hpn : new.all Stmt.plainOpts = true)
+    (hen : execAll rc [] new = some dbN) (mn : Migration) (hmn' : ReaderMysql.run {} new = .ok mn)
+    (t : String) (tbN : TableSpec) (hfn : dbN.find t = some tbN) (hnofk : tbN.fks = []) :
+    ∃ (i : Nat) (td : Table), mn.tables[i]? = some td ∧ td.name = t ∧ td.action = .add ∧
+      ∃ cs is, td.migrationColumnUp g = .ok (cs, []) ∧ (∀ dc, td.migrationIndexUp g dc = .ok is) ∧
+        (∀ dc, td.migrationForeignKeyUp dc = []) ∧
+        (∀ dbO : DB, dbO.has t = false → ∀ s ∈ cs ++ is, justified dbO dbN s = true) ∧
         ∀ db : DB, (db.map (·.name)).Nodup → db.has t = false →
           ∃ db' tb', execAll false db (cs ++ is) = some db' ∧ db'.find t = some tb' ∧ tb'.equiv tbN = true ∧
             (∀ u, u ≠ t → db'.find u = db.find u) ∧ db'.map (·.name) = db.map (·.name) ++ [t] := by
-  have hoc : old.all Stmt.colSafe = true :=
-    List.all_eq_true.mpr (fun s hs => Stmt.colSafe_of_elemSafe s (List.all_eq_true.mp ho s hs))
   have hnc : new.all Stmt.colSafe = true :=
     List.all_eq_true.mpr (fun s hs => Stmt.colSafe_of_elemSafe s (List.all_eq_true.mp hn s hs))
   have htn : new.all Stmt.tablePk = true :=
     List.all_eq_true.mpr (fun s hs => ReaderMysql.tablePk_of_plainOpts s (List.all_eq_true.mp hpn s hs))
-  unfold loadAndDiff at hd
-  obtain ⟨o, hlo, hd⟩ := bind_ok hd
-  obtain ⟨n, hln, hd⟩ := bind_ok hd
-  obtain ⟨mo, hmo', hro⟩ := ReaderMysql.run_rel rc old {} [] dbO Rel.empty hoc heo
-  obtain ⟨mn, hmn', hrn, hxn, hkn⟩ := ReaderMysql.run_pk rc new {} [] dbN Rel.empty ElemsOK.empty PkOK.empty hn htn hen
-  have hpln : mn.Plain False := ReaderMysql.run_plain new {} mn Migration.plain_empty hpn (fun k => k.elim) hmn'
-  have : mo = o := by
-    have : readScript g {} old = .ok mo := by unfold readScript; rw [hg]; exact hmo'
-    rw [this] at hlo; exact Except.ok.inj hlo
+  obtain ⟨mn2, hmn2, hrn, hxn, hkn⟩ := ReaderMysql.run_pk rc new {} [] dbN Rel.empty ElemsOK.empty PkOK.empty hn htn hen
+  have : mn = mn2 := by rw [hmn2] at hmn'; exact (Except.ok.inj hmn').symm
   subst this
-  have : mn = n := by
-    have : readScript g {} new = .ok mn := by unfold readScript; rw [hg]; exact hmn'
-    rw [this] at hln; exact Except.ok.inj hln
-  subst this
-  obtain ⟨i, tn, _, hmn, hdn, hnmn, hcoln, _, htyN⟩ := hrn.lookup hfn
+  have hpln : mn.Plain False := ReaderMysql.run_plain new {} mn Migration.plain_empty hpn (fun k => k.elim) hmn2
+  obtain ⟨i, td, hgi, hmn, hdn, hnmn, hcoln, _, htyN⟩ := hrn.lookup hfn
   have hmemn := List.mem_of_getElem? hmn
-  have hi_n := hrn.inv.each tn hmemn
-  have hgo : mo.tblIdx.get? t = none := hro.unknown hnew
-  unfold Migration.diff at hd
-  obtain ⟨ts, h1, hd⟩ := bind_ok hd
-  obtain ⟨td, htd, hspec⟩ := Migration.diffTables1_getElem g.dialect mo mn.tables ts i tn h1 hmn
-  rw [hnmn, hgo] at hspec
-  have htdeq : td = tn := hspec
-  subst htdeq
-  obtain ⟨extra, hext⟩ := Migration.diffTables2_prefix mo.tables _ d hd
-  have htd_mem : td ∈ d.tables := by
-    rw [hext]; exact List.mem_append_left _ (List.mem_of_getElem? htd)
+  have hi_n := hrn.inv.each td hmemn
   have hact : td.action = .add := (hrn.fresh td hmemn).2
   have hall : td.AllAdd := (hrn.fresh td hmemn).1
   -- the slices
@@ -238,25 +216,28 @@ theorem created_table_spec (g : Globals) (hg : g.dialect = .mysql) (rc : Bool)
     unfold Table.migrationColumnUp Table.createTableStmts
     rw [hact]
     simp only [hprinted, hcomments, bind, Except.bind, pure, Except.pure]
-  have his : td.migrationIndexUp g [] = .ok (td.idxs.flatMap (fun i => i.upStmts t)) := by
+  have his : ∀ dc, td.migrationIndexUp g dc = .ok (td.idxs.flatMap (fun i => i.upStmts t)) := by
+    intro dc
     unfold Table.migrationIndexUp
     rw [hact, hnmn]
     exact Table.addedIdx_pure g t td.idxs hlive
-  have hfs : td.migrationForeignKeyUp [] = [] := by
+  have hfs : ∀ dc, td.migrationForeignKeyUp dc = [] := by
+    intro dc
     unfold Table.migrationForeignKeyUp
     rw [hact, hfks]; rfl
   rw [hnmn] at hcs
   have hwfN : tbN.WF := execAll_wf rc new [] dbN hnc wf_empty hen tbN (mem_of_find hfn)
   have hndI : (td.idxs.map (·.name)).Nodup := hi_n.idxs.nodup
-  have hfoNone : dbO.find t = none := by
-    cases hfo : dbO.find t with
-    | none => rfl
-    | some x =>
-      have := (has_iff dbO t).mpr (by rw [← find_name' dbO t x hfo]; exact List.mem_map_of_mem (mem_of_find hfo))
-      rw [hnew] at this; cases this
-  have hjust : ∀ s ∈ [Stmt.createTable t
+  have hjust : ∀ dbO : DB, dbO.has t = false → ∀ s ∈ [Stmt.createTable t
       ((td.cols.foldl (fun m c => max m c.name.utf8ByteSize) (((td.cols[0]?).map (·.name.utf8ByteSize)).getD 0)))
       (td.cols.map (fun c => c.colDef false)) []] ++ td.idxs.flatMap (fun i => i.upStmts t), justified dbO dbN s = true := by
+    intro dbO hnew
+    have hfoNone : dbO.find t = none := by
+      cases hfo : dbO.find t with
+      | none => rfl
+      | some x =>
+        have := (has_iff dbO t).mpr (by rw [← find_name' dbO t x hfo]; exact List.mem_map_of_mem (mem_of_find hfo))
+        rw [hnew] at this; cases this
     intro s hs
     rcases List.mem_append.mp hs with h | h
     · rw [List.mem_singleton.mp h]
@@ -302,7 +283,7 @@ theorem created_table_spec (g : Globals) (hg : g.dialect = .mysql) (rc : Bool)
         have h2 := idx_some_of_mem dbN t tbN hfn hndS _ hm
         have h2 : dbN.idx t i.name = some i.toSpec := h2
         rw [h1, h2]; rfl
-  refine ⟨td, htd_mem, hnmn, hact, _, _, hcs, his, hfs, hjust, ?_⟩
+  refine ⟨i, td, hmn, hnmn, hact, _, _, hcs, his, hfs, hjust, ?_⟩
   intro db hnd hnot
   -- CREATE TABLE
   have hplain := (hpln td hmemn).opts
@@ -427,5 +408,54 @@ theorem created_table_spec (g : Globals) (hg : g.dialect = .mysql) (rc : Bool)
         simpa using (Ne.symm hu)
       simp [List.find?_cons, this]
   · rw [hnames', List.map_append, List.map_singleton]
+
+
+/-- **C01, a table only the new side has, on the reference engine.**  For a table the new script declares and the old one
+    does not (MySQL reader model, no inline PRIMARY KEY, no foreign key on it): the CREATE TABLE statement followed by
+    the index statements `MigrationIndexUp` prints for it, executed on any schema that does not have the table, are
+    well-formed at every step and add a table equal to the new side's (columns, primary key, indexes), leaving every
+    other table alone. -/
+theorem created_table_spec (g : Globals) (hg : g.dialect = .mysql) (rc : Bool)
+    (old new : List Stmt) (dbO dbN : DB) (ho : old.all Stmt.elemSafe = true) (hn : new.all Stmt.elemSafe = true)
+    (hpo : old.all Stmt.plainOpts = true) (hpn : new.all Stmt.plainOpts = true)
+    (heo : execAll rc [] old = some dbO) (hen : execAll rc [] new = some dbN)
+    (d : Migration) (hd : loadAndDiff g old new = .ok d)
+    (t : String) (tbN : TableSpec) (hfn : dbN.find t = some tbN) (hnew : dbO.has t = false) (hnofk : tbN.fks = []) :
+    ∃ td ∈ d.tables, td.name = t ∧ td.action = .add ∧
+      ∃ cs is, td.migrationColumnUp g = .ok (cs, []) ∧ td.migrationIndexUp g [] = .ok is ∧
+        td.migrationForeignKeyUp [] = [] ∧ (∀ s ∈ cs ++ is, justified dbO dbN s = true) ∧
+        ∀ db : DB, (db.map (·.name)).Nodup → db.has t = false →
+          ∃ db' tb', execAll false db (cs ++ is) = some db' ∧ db'.find t = some tb' ∧ tb'.equiv tbN = true ∧
+            (∀ u, u ≠ t → db'.find u = db.find u) ∧ db'.map (·.name) = db.map (·.name) ++ [t] := by
+  have hoc : old.all Stmt.colSafe = true :=
+    List.all_eq_true.mpr (fun s hs => Stmt.colSafe_of_elemSafe s (List.all_eq_true.mp ho s hs))
+  have hnc : new.all Stmt.colSafe = true :=
+    List.all_eq_true.mpr (fun s hs => Stmt.colSafe_of_elemSafe s (List.all_eq_true.mp hn s hs))
+  unfold loadAndDiff at hd
+  obtain ⟨o, hlo, hd⟩ := bind_ok hd
+  obtain ⟨n, hln, hd⟩ := bind_ok hd
+  obtain ⟨mo, hmo', hro⟩ := ReaderMysql.run_rel rc old {} [] dbO Rel.empty hoc heo
+  obtain ⟨mn, hmn', hrn⟩ := ReaderMysql.run_rel rc new {} [] dbN Rel.empty hnc hen
+  have : mo = o := by
+    have : readScript g {} old = .ok mo := by unfold readScript; rw [hg]; exact hmo'
+    rw [this] at hlo; exact Except.ok.inj hlo
+  subst this
+  have : mn = n := by
+    have : readScript g {} new = .ok mn := by unfold readScript; rw [hg]; exact hmn'
+    rw [this] at hln; exact Except.ok.inj hln
+  subst this
+  obtain ⟨i, td, hmn, hnmn, hact, cs, is, hcs, his, hfs, hjust, hrun⟩ :=
+    loaded_table_spec g hg rc new dbN hn hpn hen mn hmn' t tbN hfn hnofk
+  have hgo : mo.tblIdx.get? t = none := hro.unknown hnew
+  unfold Migration.diff at hd
+  obtain ⟨ts, h1, hd⟩ := bind_ok hd
+  obtain ⟨td', htd, hspec⟩ := Migration.diffTables1_getElem g.dialect mo mn.tables ts i td h1 hmn
+  rw [hnmn, hgo] at hspec
+  have htdeq : td' = td := hspec
+  subst htdeq
+  obtain ⟨extra, hext⟩ := Migration.diffTables2_prefix mo.tables _ d hd
+  have htd_mem : td' ∈ d.tables := by
+    rw [hext]; exact List.mem_append_left _ (List.mem_of_getElem? htd)
+  exact ⟨td', htd_mem, hnmn, hact, cs, is, hcs, his [], hfs [], hjust dbO hnew, hrun⟩
 
 end Sqlize
